@@ -361,76 +361,6 @@ theorem abs_dot_le (R L : V3 ℝ) : |V3.dot R L| ≤ √(V3.dot R R) * √(V3.do
   rw [← Real.sqrt_mul (dot_self_nonneg R), ← Real.sqrt_mul_self (abs_nonneg _), abs_mul_abs_self]
   exact Real.sqrt_le_sqrt (dot_sq_le R L)
 
-/-- every operation of the branch of `triEdgeI` that is taken is defined: `r2 = R·R`, `l2 = L·L`,
-`b = R·L`; in the first branch (`ind > 1e-12·l`, `triEdgeFar`) the argument of the inner `sqrt` is
-non-negative, the divisors `l`, `ind` are positive and the argument of `log` is positive; in the
-second branch the divisors `l`, `r` are positive and the argument of `log` is positive -/
-def TriEdgeDefined (r2 l2 b : ℝ) : Prop :=
-  0 ≤ r2 ∧ 0 < √l2 ∧
-  (triEdgeFar r2 l2 b → 0 ≤ l2 + 2 * b + r2 ∧ 0 < |√r2 + b / √l2| ∧
-    0 < (√(l2 + 2 * b + r2) + √l2 + b / √l2) / |√r2 + b / √l2|) ∧
-  (¬ triEdgeFar r2 l2 b → 0 < √r2 ∧ 0 < |√l2 - √r2| / √r2)
-
-/-- `ind = r + b/l ≥ 0` (the `fabs` of the source is the identity in exact arithmetic) -/
-theorem triEdge_ind_nonneg (R L : V3 ℝ) (hL : 0 < V3.dot L L) :
-    0 ≤ √(V3.dot R R) + V3.dot R L / √(V3.dot L L) := by
-  have hl : 0 < √(V3.dot L L) := Real.sqrt_pos.mpr hL
-  have h := abs_le.mp (abs_dot_le R L)
-  have : -√(V3.dot R R) ≤ V3.dot R L / √(V3.dot L L) := by
-    rw [le_div_iff₀ hl]; linarith [h.1]
-  linarith
-
-/-- the numerator `|R + L| + l + b/l` of the first branch is positive wherever `ind` is -/
-theorem triEdge_num_pos (R L : V3 ℝ) (hL : 0 < V3.dot L L)
-    (hind : 0 < √(V3.dot R R) + V3.dot R L / √(V3.dot L L)) :
-    0 < √(V3.dot L L + 2 * V3.dot R L + V3.dot R R) + √(V3.dot L L) + V3.dot R L / √(V3.dot L L) := by
-  set l := √(V3.dot L L) with hl_def
-  set r := √(V3.dot R R) with hr_def
-  have hl : 0 < l := Real.sqrt_pos.mpr hL
-  have hr : 0 ≤ r := Real.sqrt_nonneg _
-  have hl2 : V3.dot L L = l * l := (Real.mul_self_sqrt hL.le).symm
-  have hr2 : V3.dot R R = r * r := (Real.mul_self_sqrt (dot_self_nonneg R)).symm
-  set β := V3.dot R L / l with hβ
-  have hb : V3.dot R L = β * l := by rw [hβ]; field_simp
-  have hcs : |β * l| ≤ r * l := by rw [← hb]; exact abs_dot_le R L
-  have hβr : |β| ≤ r := by
-    rw [abs_mul, abs_of_pos hl] at hcs
-    exact le_of_mul_le_mul_right hcs hl
-  have hβ' := abs_le.mp hβr
-  rw [hl2, hb, hr2]
-  have hs0 : 0 ≤ √(l * l + 2 * (β * l) + r * r) := Real.sqrt_nonneg _
-  by_cases hc : 0 < l + β
-  · linarith
-  · have hc' : l + β ≤ 0 := not_lt.mp hc
-    have : -(l + β) < √(l * l + 2 * (β * l) + r * r) := by
-      rw [Real.lt_sqrt (by linarith)]
-      nlinarith [mul_pos hind (show 0 < r - β by linarith)]
-    linarith
-
-theorem triEdge_defined (R L : V3 ℝ) (hL : 0 < V3.dot L L)
-    (hcap : ¬ triEdgeFar (V3.dot R R) (V3.dot L L) (V3.dot R L) →
-      0 < V3.dot R R ∧ V3.dot R R ≠ V3.dot L L) :
-    TriEdgeDefined (V3.dot R R) (V3.dot L L) (V3.dot R L) := by
-  have hl : 0 < √(V3.dot L L) := Real.sqrt_pos.mpr hL
-  refine ⟨dot_self_nonneg R, hl, ?_, ?_⟩
-  · intro hfar
-    unfold triEdgeFar at hfar
-    have hind0 := triEdge_ind_nonneg R L hL
-    have hind : 0 < |√(V3.dot R R) + V3.dot R L / √(V3.dot L L)| :=
-      lt_of_le_of_lt (by positivity) hfar
-    have hind' : 0 < √(V3.dot R R) + V3.dot R L / √(V3.dot L L) := by
-      rwa [abs_of_nonneg hind0] at hind
-    refine ⟨?_, hind, div_pos (triEdge_num_pos R L hL hind') hind⟩
-    have : V3.dot L L + 2 * V3.dot R L + V3.dot R R = V3.dot (R + L) (R + L) := by
-      simp only [V3.dot, V3.add_x, V3.add_y, V3.add_z]; ring
-    rw [this]; exact dot_self_nonneg _
-  · intro hnear
-    obtain ⟨h1, h2⟩ := hcap hnear
-    have hr : 0 < √(V3.dot R R) := Real.sqrt_pos.mpr h1
-    have h2' : √(V3.dot R R) ≠ √(V3.dot L L) := fun h =>
-      h2 ((Real.sqrt_inj (dot_self_nonneg R) hL.le).mp h)
-    exact ⟨hr, div_pos (abs_pos.mpr (sub_ne_zero.mpr (Ne.symm h2'))) hr⟩
-
 /-- the observer (the origin of the vertex-minus-observer vectors `R`, `S`) lies on the closed
 segment between the two vertices -/
 def OriginOnSegment (R S : V3 ℝ) : Prop :=
@@ -541,6 +471,137 @@ theorem originOnSegment_of_left_zero {R S : V3 ℝ} (h : V3.dot R R = 0) : Origi
 theorem originOnSegment_of_right_zero {R S : V3 ℝ} (h : V3.dot S S = 0) : OriginOnSegment R S := by
   obtain ⟨h1, h2, h3⟩ := dot_self_eq_zero h
   exact ⟨1, zero_le_one, le_rfl, by rw [h1]; ring, by rw [h2]; ring, by rw [h3]; ring⟩
+
+/-! #### the edge integral `triEdgeI` (repaired form: no cancelling sums) -/
+
+/-- every operation of the branch of `triEdgeI` that is taken is defined (`rr = R·R`, `nn = Rn·Rn`,
+`ll = L·L`, `rl = R·L`, `nl = Rn·L`, `xr = |R×L|²`, `xn = |Rn×L|²`; `a = rl/l`, `c = nl/l`,
+`rho2 = (xn or xr)/ll`): the square roots receive non-negative numbers, the divisors `l`, `l2` are positive;
+on the on-edge branch (`triEdgeOn`) the divisor `c` and the argument `-a/c` of `log` are positive; otherwise,
+in the sub-branch that is selected by the signs of `a` and `c`, the divisor (`r + a`, `rn - c` resp.
+`rho2`) and the argument of `log` are positive -/
+def TriEdgeDefined (rr nn ll rl nl xr xn : ℝ) : Prop :=
+  0 ≤ rr ∧ 0 ≤ nn ∧ 0 < ll ∧ 0 < √ll ∧
+  (triEdgeOn rr nn ll rl nl xr xn → 0 < nl / √ll ∧ 0 < -(rl / √ll) / (nl / √ll)) ∧
+  (¬ triEdgeOn rr nn ll rl nl xr xn →
+    (0 ≤ rl / √ll → 0 < √rr + rl / √ll ∧ 0 < (√nn + nl / √ll) / (√rr + rl / √ll)) ∧
+    (¬ 0 ≤ rl / √ll → nl / √ll < 0 → 0 < √nn - nl / √ll ∧ 0 < (√rr - rl / √ll) / (√nn - nl / √ll)) ∧
+    (¬ 0 ≤ rl / √ll → ¬ nl / √ll < 0 → 0 < (if √nn < √rr then xn else xr) / ll ∧
+      0 < (√nn + nl / √ll) * (√rr - rl / √ll) / ((if √nn < √rr then xn else xr) / ll)))
+
+/-- Lagrange's identity `|R×L|² = |R|²|L|² − (R·L)²` -/
+theorem cross_dot_lagrange (R L : V3 ℝ) :
+    V3.dot (V3.cross R L) (V3.cross R L) = V3.dot R R * V3.dot L L - V3.dot R L * V3.dot R L := by
+  simp only [V3.dot, V3.cross]; ring
+
+theorem cross_add_self (R L : V3 ℝ) : V3.cross (R + L) L = V3.cross R L := by
+  apply V3.ext' <;> simp only [V3.cross, V3.add_x, V3.add_y, V3.add_z] <;> ring
+
+theorem dot_add_self (R L : V3 ℝ) : V3.dot (R + L) L = V3.dot R L + V3.dot L L := by
+  simp only [V3.dot, V3.add_x, V3.add_y, V3.add_z]; ring
+
+/-- `R×L = 0`, `R·L < 0 ≤ (R+L)·L`: the observer is on the edge from `R` to `R + L` (BAC–CAB:
+`(L·L) R − (R·L) L = L×(R×L)`) -/
+theorem originOnSegment_of_cross_zero (R L : V3 ℝ) (hL : 0 < V3.dot L L)
+    (hx : V3.dot (V3.cross R L) (V3.cross R L) = 0) (ha : V3.dot R L < 0) (hc : 0 ≤ V3.dot R L + V3.dot L L) :
+    OriginOnSegment R (R + L) := by
+  obtain ⟨x1, x2, x3⟩ := dot_self_eq_zero hx
+  simp only [V3.cross] at x1 x2 x3
+  have hl : V3.dot L L ≠ 0 := hL.ne'
+  refine ⟨-(V3.dot R L) / V3.dot L L, by apply div_nonneg <;> linarith, by rw [div_le_one hL]; linarith, ?_, ?_, ?_⟩
+  · simp only [V3.add_x]
+    have : (1 - -(V3.dot R L) / V3.dot L L) * R.x + -(V3.dot R L) / V3.dot L L * (R.x + L.x) =
+        (V3.dot L L * R.x - V3.dot R L * L.x) / V3.dot L L := by field_simp; ring
+    rw [this, div_eq_zero_iff]; left
+    simp only [V3.dot]; linear_combination L.y * x3 - L.z * x2
+  · simp only [V3.add_y]
+    have : (1 - -(V3.dot R L) / V3.dot L L) * R.y + -(V3.dot R L) / V3.dot L L * (R.y + L.y) =
+        (V3.dot L L * R.y - V3.dot R L * L.y) / V3.dot L L := by field_simp; ring
+    rw [this, div_eq_zero_iff]; left
+    simp only [V3.dot]; linear_combination L.z * x1 - L.x * x3
+  · simp only [V3.add_z]
+    have : (1 - -(V3.dot R L) / V3.dot L L) * R.z + -(V3.dot R L) / V3.dot L L * (R.z + L.z) =
+        (V3.dot L L * R.z - V3.dot R L * L.z) / V3.dot L L := by field_simp; ring
+    rw [this, div_eq_zero_iff]; left
+    simp only [V3.dot]; linear_combination L.x * x2 - L.y * x1
+
+/-- the branch test of `triEdgeI` in geometric terms: the observer is closer than `1e-15` edge lengths to
+the line through the edge (`|R×L|² ≤ 1e-30 (L·L)²`) and its foot point lies strictly between the two ends
+(`R·L < 0 < R·L + L·L`) -/
+theorem triEdgeOn_iff (R L : V3 ℝ) (hL : 0 < V3.dot L L) :
+    triEdgeOn (V3.dot R R) (V3.dot (R + L) (R + L)) (V3.dot L L) (V3.dot R L) (V3.dot (R + L) L)
+      (V3.dot (V3.cross R L) (V3.cross R L)) (V3.dot (V3.cross (R + L) L) (V3.cross (R + L) L)) ↔
+    V3.dot (V3.cross R L) (V3.cross R L) ≤ 1 / 1000000000000000000000000000000 * (V3.dot L L * V3.dot L L) ∧
+      V3.dot R L < 0 ∧ 0 < V3.dot R L + V3.dot L L := by
+  have hl : 0 < √(V3.dot L L) := Real.sqrt_pos.mpr hL
+  unfold triEdgeOn
+  rw [cross_add_self, dot_add_self, ite_self, div_le_iff₀ hL, div_neg_iff, div_pos_iff, mul_assoc]
+  constructor
+  · rintro ⟨⟨hx, ha⟩, hc⟩
+    refine ⟨hx, ?_, ?_⟩
+    · rcases ha with h | h
+      · exact absurd h.2 (not_lt.mpr hl.le)
+      · exact h.1
+    · rcases hc with h | h
+      · exact h.1
+      · exact absurd h.2 (not_lt.mpr hl.le)
+  · rintro ⟨hx, ha, hc⟩
+    exact ⟨⟨hx, Or.inr ⟨ha, hl⟩⟩, Or.inl ⟨hc, hl⟩⟩
+
+/-- the repaired edge integral is defined off the closed edge: whichever branch is taken — the on-edge
+value inside the `1e-15 l` tube alongside the edge, or the sub-branch selected by the signs of `a = R·L/l`
+and `c = Rn·L/l` — the divisors and the argument of the logarithm are positive.  No hypothesis on the
+distance from the edge line or from the vertices besides "not on the closed edge" is needed (the narrow cone
+around the edge's extension, where the earlier `ind ≤ 1e-12·l` switch computed `log(|l - r|/r)`, is gone; the
+on-edge value `log(-a/c)` has no singular point inside its tube). -/
+theorem triEdge_defined (R L : V3 ℝ) (hL : 0 < V3.dot L L) (hoff : ¬ OriginOnSegment R (R + L)) :
+    TriEdgeDefined (V3.dot R R) (V3.dot (R + L) (R + L)) (V3.dot L L) (V3.dot R L) (V3.dot (R + L) L)
+      (V3.dot (V3.cross R L) (V3.cross R L)) (V3.dot (V3.cross (R + L) L) (V3.cross (R + L) L)) := by
+  have hl : 0 < √(V3.dot L L) := Real.sqrt_pos.mpr hL
+  have hrr : 0 < V3.dot R R := lt_of_le_of_ne (dot_self_nonneg R)
+    (fun e => hoff (originOnSegment_of_left_zero e.symm))
+  have hnn : 0 < V3.dot (R + L) (R + L) := lt_of_le_of_ne (dot_self_nonneg _)
+    (fun e => hoff (originOnSegment_of_right_zero e.symm))
+  have hr : 0 < √(V3.dot R R) := Real.sqrt_pos.mpr hrr
+  have hn : 0 < √(V3.dot (R + L) (R + L)) := Real.sqrt_pos.mpr hnn
+  refine ⟨dot_self_nonneg R, dot_self_nonneg _, hL, hl, ?_, fun _ => ⟨?_, ?_, ?_⟩⟩
+  · -- the on-edge value: a < 0 < c by the branch test itself
+    rintro ⟨⟨_, ha⟩, hc⟩
+    exact ⟨hc, div_pos (by linarith) hc⟩
+  · -- behind the start: a ≥ 0, hence c = a + l > 0
+    intro ha
+    have ha' : 0 ≤ V3.dot R L := by
+      rcases div_nonneg_iff.mp ha with h | h
+      · exact h.1
+      · exact absurd h.2 (not_le.mpr hl)
+    have hc : 0 < V3.dot (R + L) L / √(V3.dot L L) := by
+      rw [dot_add_self]; exact div_pos (by linarith) hl
+    have h1 : 0 < √(V3.dot R R) + V3.dot R L / √(V3.dot L L) := by linarith
+    exact ⟨h1, div_pos (by linarith) h1⟩
+  · -- beyond the end: c < 0 (and a < 0)
+    intro ha hc
+    have h1 : 0 < √(V3.dot (R + L) (R + L)) - V3.dot (R + L) L / √(V3.dot L L) := by linarith
+    exact ⟨h1, div_pos (by linarith [not_le.mp ha]) h1⟩
+  · -- alongside the edge: a < 0 ≤ c, off the edge hence rho2 > 0
+    intro ha hc
+    have ha1 : V3.dot R L / √(V3.dot L L) < 0 := not_le.mp ha
+    have hc1 : 0 ≤ V3.dot (R + L) L / √(V3.dot L L) := not_lt.mp hc
+    have ha' : V3.dot R L < 0 := by
+      rcases div_neg_iff.mp ha1 with h | h
+      · exact absurd h.2 (not_lt.mpr hl.le)
+      · exact h.1
+    have hc' : 0 ≤ V3.dot R L + V3.dot L L := by
+      rw [dot_add_self] at hc1
+      rcases div_nonneg_iff.mp hc1 with h | h
+      · exact h.1
+      · exact absurd h.2 (not_le.mpr hl)
+    have hx0 : 0 ≤ V3.dot (V3.cross R L) (V3.cross R L) := dot_self_nonneg _
+    have hxpos : 0 < V3.dot (V3.cross R L) (V3.cross R L) := lt_of_le_of_ne hx0
+      (fun e => hoff (originOnSegment_of_cross_zero R L hL e.symm ha' hc'))
+    have hrho : 0 < (if √(V3.dot (R + L) (R + L)) < √(V3.dot R R) then
+        V3.dot (V3.cross (R + L) L) (V3.cross (R + L) L) else V3.dot (V3.cross R L) (V3.cross R L)) / V3.dot L L := by
+      rw [cross_add_self, ite_self]; exact div_pos hxpos hL
+    exact ⟨hrho, div_pos (mul_pos (by linarith) (by linarith)) hrho⟩
 
 /-- a triangle with non-zero normal vector `(v1 - v0) × (v2 - v0)` has three edges of positive length -/
 theorem triangle_edges_pos (v0 v1 v2 : V3 ℝ)
